@@ -586,7 +586,7 @@ def sign_of(e, env, fn):
         return TOP
     if isinstance(e, ast.Call):
         fname = (e.func.attr if isinstance(e.func, ast.Attribute) else getattr(e.func, "id", None))
-        if fname == "abs" and e.args:
+        if fname in ("abs", "fabs") and e.args:
             a = sign_of(e.args[0], env, fn)
             return {NEG: POS, POS: POS, ZERO: ZERO}.get(a, NONNEG)
         if fname == "copysign" and len(e.args) == 2:
@@ -632,7 +632,51 @@ def _cond(t, env, fn):
             ast.Gt: {POS: True, NEG: False, ZERO: False, NONPOS: False}, ast.GtE: {POS: True, NEG: False, ZERO: True, NONNEG: True},
         }
         return table.get(type(op), {}).get(s)
+    if isinstance(t, ast.Compare) and len(t.ops) == 1 and isinstance(t.left, ast.Constant) and t.left.value == 0:
+        # 0 < x  is  x > 0
+        flip = {ast.Lt: ast.Gt, ast.LtE: ast.GtE, ast.Gt: ast.Lt, ast.GtE: ast.LtE}.get(type(t.ops[0]))
+        if flip is not None:
+            return _cond(ast.Compare(left=t.comparators[0], ops=[flip()], comparators=[t.left]), env, fn)
+    if isinstance(t, ast.UnaryOp) and isinstance(t.op, ast.Not):
+        c = _cond(t.operand, env, fn)
+        return None if c is None else (not c)
+    if isinstance(t, ast.Name):
+        # a flag bound once at the top level to such a comparison
+        from .dataflow import local_defs
+
+        ds = local_defs(fn).get(t.id, [])
+        if len(ds) == 1 and ds[0].kind == "assign" and isinstance(ds[0].value, ast.AST):
+            return _cond(ds[0].value, env, fn)
     return None
+
+
+def _reachable_returns(stmts, env, fn, out):
+    """returns that can execute when the signs in env hold (conditions the signs decide prune a branch);
+    True when every path through stmts has returned"""
+    for st in stmts:
+        if isinstance(st, ast.Return):
+            if st.value is not None:
+                out.append(st)
+            return True
+        if isinstance(st, ast.Raise):
+            return True
+        if isinstance(st, ast.If):
+            c = _cond(st.test, env, fn)
+            if c is True:
+                if _reachable_returns(st.body, env, fn, out):
+                    return True
+            elif c is False:
+                if _reachable_returns(st.orelse, env, fn, out):
+                    return True
+            else:
+                a = _reachable_returns(st.body, env, fn, out)
+                b = _reachable_returns(st.orelse, env, fn, out)
+                if a and b:
+                    return True
+        elif isinstance(st, (ast.For, ast.While, ast.With, ast.Try)):
+            for fld in ("body", "orelse", "finalbody"):
+                _reachable_returns(getattr(st, fld, []) or [], env, fn, out)
+    return False
 
 
 def z_r5_offset_sign(p: Project, rep: Report):
@@ -653,9 +697,15 @@ def z_r5_offset_sign(p: Project, rep: Report):
                 v = ast.Constant(value=-v.operand.value) if isinstance(v.operand.value, (int, float)) else v
             if isinstance(tg, ast.Name) and isinstance(v, ast.Constant) and isinstance(v.value, (int, float)) and not isinstance(v.value, bool) and tg.id not in params:
                 consts[tg.id] = POS if v.value > 0 else (NEG if v.value < 0 else ZERO)
-    for i, r in enumerate(rets):
-        for hs, want in ((NEG, (NEG,)), (POS, (POS,))):
-            got = sign_of(r.value, {**consts, params[0]: hs, params[1]: POS}, fn)
+    for hs, want in ((NEG, (NEG,)), (POS, (POS,))):
+        env_ = {**consts, params[0]: hs, params[1]: POS}
+        live = []
+        _reachable_returns(fn.body, env_, fn, live)
+        for r in (live or rets):
+            i = rets.index(r) if r in rets else 0
+            if len(rets) > 1 and len(live) < len(rets):
+                i = 0  # one return per sign after pruning: keyed like the single-return form
+            got = sign_of(r.value, env_, fn)
             rep.check("Z-R5", f"gmt_offset:return#{i}:hours-{hs}", got in want, f"with {hs.lower()} hours and positive minutes the offset evaluates to sign {got} (expected {want[0]}): the minutes are not given the sign of the hours, so [-3.30] is read as -2:30" if got not in want else "", f"{rel}:{r.lineno}")
 
 
